@@ -1,11 +1,12 @@
 (** Case evaluation for the C19 correspondence check. *)
-From Dawn Require Import Config.Model.
+From Dawn Require Import Config.Model Config.File.
 
 Inductive case :=
 | CWrite (c : config) (bytes : str)              (* WriteConfigFile's output *)
 | CLoad (bytes : str) (exp : option config)      (* LoadConfigBytes on bytes the writer produced *)
 | CSemver (v : str) (ok : bool)
-| CClean (p out : str).
+| CClean (p out : str)
+| CRewrite (old : file) (c : config) (bytes : str).  (* the file WriteConfigFile leaves at a path that was in state [old] *)
 
 Fixpoint list_eqb {A} (eqb : A -> A -> bool) (a b : list A) : bool :=
   match a, b with
@@ -32,6 +33,7 @@ Definition check_case (c : case) : bool :=
       end
   | CSemver v ok => Bool.eqb (semver_canonical v) ok
   | CClean p out => str_eqb (clean_path p) out
+  | CRewrite old cfg bytes => str_eqb (write_config_file old cfg) bytes
   end.
 
 Definition mismatches (cs : list (N * case)) : list N :=
